@@ -93,6 +93,8 @@ def main():
         for k in ('tests', 'demo_unpatched_exit', 'demo_patched_exit'):
             if k not in r and k in old:
                 r[k] = old[k]
+        for p, v in old.get('checks', {}).items():       # keep earlier results of other properties' checks
+            r.setdefault('checks', {}).setdefault(p, v)
         results[n] = r
         c = r.get('checks', {}).get(r['property'])
         print('%-10s %-4s %-60s %s' % (n, r['property'], (r.get('title') or '')[:60],
